@@ -18,8 +18,12 @@ def configs(ctx):
     values = ctx.pick((1, 2), (1, 2, 3))
     max_cells = ctx.pick(8, 12)
     for tag, base in U.templates(ctx.tier):
+        if tag == "P1ij" or (tag == "P8b" and ctx.quick):
+            continue
         perms = U.operand_perms(base)
-        if tag in ("P8", "S5"):
+        if tag == "T4":
+            perms = perms[:: max(1, len(perms) // 6)]
+        if tag in ("P8", "S5", "P8b"):
             perms = perms[:2] + perms[-1:]
         for pi, expr in enumerate(perms):
             decl = U.decl_for([expr])
@@ -27,7 +31,7 @@ def configs(ctx):
             tensors = list(decl)
             los = [None] + [list(p) for p in itertools.permutations(ranks)]
             ros = list(U.rank_order_choices(decl, tensors))
-            if tag == "P8":
+            if tag in ("P8", "P8b"):
                 # 3-rank tensor: rank orders of A only x the other tensors as declared / fully reversed
                 ros = [ro for ro in ros if all(ro.get(t) in (None, decl[t][::-1]) for t in tensors if t != "A")]
                 los = [None] + [list(p) for p in itertools.permutations(ranks)][::5]
